@@ -1,6 +1,6 @@
 // rainvc:pkg internal/metainfo
 // rainvc:function internal/metainfo.NewInfoBytes
-// rainvc:bound every directory made of a non-empty subset of the 7 relative paths [a.b, a/b, a/c.d, a0, b, ab/c, a-b/c] (127 layouts) with file sizes 1..40000 bytes derived from the path, piece length 16 KiB; plus each of the 7 as a single-file torrent
+// rainvc:bound every directory made of a non-empty subset of the 7 relative paths [a.b, a/b, a/c.d, a0, b, ab/c, a-b/c] (127 layouts) with file sizes 1..40000 bytes derived from the path, piece length 16 KiB; plus each of the 7 as a single-file torrent; plus 3 trees in which one entry is a symbolic link to a file
 package metainfo
 
 // Bounded stand-in (filesystem walk and hashing, outside the generator's reach): a torrent
@@ -86,6 +86,29 @@ func TestRainvcBounded(t *testing.T) {
 			t.Fatalf("violation: directory %v: creation failed: %v", names, err)
 		}
 		verify(fmt.Sprintf("directory %v", names), tmp, b)
+	}
+	// the same with one of the files reached through a symbolic link (to a file of the tree, to
+	// a file outside it, of a size different from the length of the link text)
+	for _, link := range []struct{ name, target string }{{"b.lnk", "a0"}, {"a/zz", "../a0"}, {"0first", "a/b"}} {
+		tmp := t.TempDir()
+		dir := filepath.Join(tmp, "tor")
+		for _, rel := range []string{"a0", "a/b", "b"} {
+			p := filepath.Join(dir, filepath.FromSlash(rel))
+			if err := os.MkdirAll(filepath.Dir(p), 0o755); err != nil {
+				t.Fatal(err)
+			}
+			if err := os.WriteFile(p, content(rel), 0o644); err != nil {
+				t.Fatal(err)
+			}
+		}
+		if err := os.Symlink(link.target, filepath.Join(dir, filepath.FromSlash(link.name))); err != nil {
+			t.Skip(err)
+		}
+		b, err := NewInfoBytes("", []string{dir}, false, 16384, "", log)
+		if err != nil {
+			t.Fatalf("violation: directory with symlink %s -> %s: creation failed: %v", link.name, link.target, err)
+		}
+		verify(fmt.Sprintf("directory with symlink %s -> %s", link.name, link.target), tmp, b)
 	}
 	for _, rel := range rels {
 		tmp := t.TempDir()
